@@ -11,11 +11,13 @@ import (
 var ownTriggers = map[string][]string{
 	"C01": {"len-merge-put"},
 	"C02": {"fail-in-commit", "rollback-insert", "phantom-reserved"},
+	"C03": {"index-build-during-apply"},
 	"C04": {"union-after-clear", "agg-missing-value"},
 	"C05": {"len-merge-put"},
 	"C08": {"snapshot-reserved"},
 	"C11": {"put-delete", "merge-absent"},
 	"C12": {"dup-key-in-txn", "concurrent-key-insert"},
+	"C16": {"index-build-during-apply"},
 	"C17": {"ttl-change-during-pass"},
 	"C18": {"schema-change-beside-activity", "growth-beside-readers", "enum-write-beside-readers"},
 	"C19": {"double-delete"},
@@ -25,7 +27,7 @@ var ownTriggers = map[string][]string{
 func knownAvoid(prop string, seed uint64, run int) avoid {
 	a := avoid{putThenDelete: true, failInCommit: true, mergeAfterReuse: true, lenMergeThenPut: true, dupKeyInTxn: true,
 		aggStale: true, rollbackInsert: true, unionAfterClear: true, doubleDelete: true, phantomReserved: true,
-		snapshotReserved: true, concurrentKeyInsert: true, ttlDuringPass: true, schemaChange: true, blockGrowth: true, enumBesideReaders: true}
+		snapshotReserved: true, concurrentKeyInsert: true, ttlDuringPass: true, schemaChange: true, blockGrowth: true, enumBesideReaders: true, indexDuringApply: true}
 	r := NewRng(seed, uint64(run), 1234)
 	allow := func(name string) {
 		switch name {
@@ -61,6 +63,8 @@ func knownAvoid(prop string, seed uint64, run int) avoid {
 			a.blockGrowth = false
 		case "enum-write-beside-readers":
 			a.enumBesideReaders = false
+		case "index-build-during-apply":
+			a.indexDuringApply = false
 		}
 	}
 	for _, t := range ownTriggers[prop] {
